@@ -20,7 +20,11 @@ import (
 	"time"
 
 	"github.com/gin-gonic/gin"
+	kitlog "github.com/go-kit/log"
 	"github.com/prometheus/client_golang/prometheus"
+	"github.com/prometheus/common/model"
+	pconfig "github.com/prometheus/prometheus/config"
+	pdisc "github.com/prometheus/prometheus/discovery"
 	"tkestack.io/kvass/pkg/api"
 	"tkestack.io/kvass/pkg/prom"
 	"tkestack.io/kvass/pkg/scrape"
@@ -146,7 +150,11 @@ type sideWorld struct {
 // newSideWorld starts a sidecar on store directory dir (created if needed) and loads the store,
 // as a process start does.  cfgYAML "" leaves the sidecar without configuration (it then waits
 // for the coordinator to push one).
-func newSideWorld(dir string, cfgYAML string) *sideWorld {
+func newSideWorld(dir string, cfgYAML string) *sideWorld { return newSideWorldFile(dir, cfgYAML, "") }
+
+// newSideWorldFile: cfgFile != "" starts the sidecar in file mode (its configuration is read from that file at start
+// and again on POST /-/reload/)
+func newSideWorldFile(dir string, cfgYAML string, cfgFile string) *sideWorld {
 	w := &sideWorld{dir: dir, sim: &simTargets{}}
 	w.cli = &http.Client{Transport: w.sim}
 	reg := prometheus.NewRegistry()
@@ -170,7 +178,7 @@ func newSideWorld(dir string, cfgYAML string) *sideWorld {
 		}
 		return nil
 	})
-	w.svc = sidecar.NewService("", "http://127.0.0.1:9090", func() (int64, error) {
+	w.svc = sidecar.NewService(cfgFile, "http://127.0.0.1:9090", func() (int64, error) {
 		if w.promDown {
 			return 0, fmt.Errorf("scripted: prometheus is not reachable")
 		}
@@ -179,6 +187,11 @@ func newSideWorld(dir string, cfgYAML string) *sideWorld {
 		w.cfgm, w.tm, reg, lg)
 	if cfgYAML != "" {
 		if err := w.cfgm.ReloadFromRaw([]byte(cfgYAML)); err != nil {
+			w.loadErr = err
+		}
+	}
+	if cfgFile != "" {
+		if err := w.cfgm.ReloadFromFile(cfgFile); err != nil {
 			w.loadErr = err
 		}
 	}
@@ -285,6 +298,7 @@ type sideProj struct {
 	Status []projStatus `json:"status"`
 	RT     projRT       `json:"rt"`
 	RTErr  string       `json:"rtErr,omitempty"`
+	Gen    []projGen    `json:"gen"`
 }
 
 func (w *sideWorld) project() sideProj {
@@ -310,6 +324,7 @@ func (w *sideWorld) project() sideProj {
 			Times: s.ScrapeTimes, Series: s.Series, Total: s.TotalSeries})
 	}
 	sort.Slice(p.Status, func(a, b int) bool { return p.Status[a].H < p.Status[b].H })
+	p.Gen = w.generated()
 	rt := &shard.RuntimeInfo{}
 	if err := w.apiGet("/api/v1/shard/runtimeinfo/", &rt); err != nil {
 		p.RTErr += " rt: " + err.Error()
@@ -317,6 +332,39 @@ func (w *sideWorld) project() sideProj {
 		p.RT = projRT{Head: rt.HeadSeries, Proc: rt.ProcessSeries, IdleAt: vclockOf(rt.IdleStartAt)}
 	}
 	return p
+}
+
+// generated: the (job, hash) pairs of the static entries in the configuration file the injector wrote for Prometheus
+func (w *sideWorld) generated() []projGen {
+	out := []projGen{}
+	raw, err := os.ReadFile(filepath.Join(w.dir, "injected.yaml"))
+	if err != nil {
+		return out
+	}
+	gc, err := pconfig.Load(string(raw), false, kitlog.NewNopLogger())
+	if err != nil {
+		return append(out, projGen{Job: "unloadable: " + err.Error()})
+	}
+	for _, job := range gc.ScrapeConfigs {
+		for _, sdc := range job.ServiceDiscoveryConfigs {
+			if st, ok := sdc.(pdisc.StaticConfig); ok {
+				for _, g := range st {
+					var h uint64
+					fmt.Sscanf(string(g.Labels[model.LabelName("__param__hash")]), "%d", &h)
+					out = append(out, projGen{Job: job.JobName, H: h})
+				}
+			}
+		}
+	}
+	sort.Slice(out, func(a, b int) bool {
+		return out[a].Job < out[b].Job || (out[a].Job == out[b].Job && out[a].H < out[b].H)
+	})
+	return out
+}
+
+type projGen struct {
+	Job string `json:"job"`
+	H   uint64 `json:"h"`
 }
 
 // ---- payloads ----
